@@ -152,7 +152,8 @@ type replayFile struct {
 	Violation *Violation      `json:"violation"`
 }
 
-var customReplayers = map[string]func(raw json.RawMessage) *Violation{}
+// customReplayers: per property; returns (violation, handled). Not handled = a World history.
+var customReplayers = map[string]func(raw json.RawMessage) (*Violation, bool){}
 
 // replayOne replays a file; returns the violation (nil = passes now).
 func replayOne(path string) (*Violation, error) {
@@ -174,7 +175,9 @@ func replayOne(path string) (*Violation, error) {
 		return nil, err
 	}
 	if f, ok := customReplayers[head.Prop]; ok {
-		return f(rf.History), nil
+		if v, handled := f(rf.History); handled {
+			return v, nil
+		}
 	}
 	s, ok := worldSpecs[head.Prop]
 	if !ok {
